@@ -37,6 +37,18 @@ func ruleNatsRemoveBeforeInvoke(c *Ctx) {
 		c.undecided("nats.Client.mqReqs", "anchor", "-", "not found")
 		return
 	}
+	entriesNonNil := true
+	for _, f := range p.Repo {
+		for _, in := range instrsOf(f) {
+			if mu, ok := in.(*ssa.MapUpdate); ok {
+				if g, _ := fieldLoad(mu.Map); g == fReqs {
+					if _, isAlloc := mu.Value.(*ssa.Alloc); !isAlloc {
+						entriesNonNil = false
+					}
+				}
+			}
+		}
+	}
 	for _, nm := range []string{"(*nats.Client).listener", "(*nats.Client).onTimeout"} {
 		fn := p.Fn(nm)
 		if fn == nil {
@@ -86,6 +98,27 @@ func ruleNatsRemoveBeforeInvoke(c *Ctx) {
 							return []Ev{{Kind: "found"}}
 						}
 						return []Ev{{Kind: "notfound"}}
+					}
+				}
+			}
+			// `rc != nil` on the looked-up entry stands for "found" when every entry stored is an allocation
+			if b, ok := i.Cond.(*ssa.BinOp); ok && (b.Op == token.EQL || b.Op == token.NEQ) && entriesNonNil {
+				x := b.X
+				if isNilConst(x) {
+					x = b.Y
+				} else if !isNilConst(b.Y) {
+					x = nil
+				}
+				if x != nil {
+					if e, ok := t.Resolve(fr, x).V.(*ssa.Extract); ok && e.Index == 0 {
+						if lk, ok := e.Tuple.(*ssa.Lookup); ok {
+							if f, _ := fieldLoad(lk.X); f == fReqs {
+								if (b.Op == token.NEQ) == dir {
+									return []Ev{{Kind: "found"}}
+								}
+								return []Ev{{Kind: "entry-nil"}}
+							}
+						}
 					}
 				}
 			}
@@ -152,7 +185,7 @@ func ruleNatsRemoveBeforeInvoke(c *Ctx) {
 				}
 			}
 			// whoever takes a found pending request out of the map completes it: nobody else can any more
-			if di := indexKind(path, "delete"); di >= 0 && hasKind(path, "found") && !hasKind(path, "notfound") && (hasKind(path, "isreq") || nm == "(*nats.Client).onTimeout") {
+			if di := indexKind(path, "delete"); di >= 0 && hasKind(path, "found") && !hasKind(path, "notfound") && !hasKind(path, "entry-nil") && (hasKind(path, "isreq") || nm == "(*nats.Client).onTimeout") {
 				if !hasKind(path[di:], "invoke") && !hasKind(path[di:], "invoke:go") && !(tr.Trunc) {
 					bad = "a pending request is removed from the map on a path that does not complete it: neither the reply nor the timeout can find it any more, its completion runs zero times: " + tr.FmtPath(path)
 				}
